@@ -24,7 +24,7 @@ PLAN = {
     "C09": {"runs": [(S, "ttl", 400, 10000, []), (S, "mixed", 80, 2000, [])]},
     "C10": {"runs": [("conc", "interleave", 120, 3000, ["--ext"]), ("locks", "stress", 300, 2000, []), ("stress", "threads", 400, 3000, []), (S, "ttl", 400, 10000, []), (S, "pressure", 80, 2000, [])]},
     "C11": {"runs": [("conc", "interleave", 120, 3000, ["--ext"]), ("locks", "stress", 300, 2000, []), ("stress", "threads", 400, 3000, []), (S, "burst", 400, 10000, []), (S, "mixed", 80, 2000, [])]},
-    "C12": {"runs": [("ack", "polls", 2, 3, []), (S, "burst", 160, 4000, []), (S, "mixed", 80, 2000, [])],
+    "C12": {"runs": [("ack", "polls", 2, 3, []), ("locks", "stress", 300, 2000, []), ("stress", "threads", 400, 3000, []), (S, "burst", 160, 4000, []), (S, "mixed", 80, 2000, [])],
             "rule": "every interleaving of done() with the polls of 1-2 tasks on the real acknowledgement (schedule points inside done/poll), every schedule prefix compared with CachedModel/Ack.lean; plus Layer A histories with polls; non-trivial = a schedule in which a poll overlaps done()"},
     "C13": {"runs": [("conc", "interleave", 160, 4000, ["--ext"]), ("locks", "stress", 500, 4000, []), ("ack", "polls", 2, 3, []), (S, "burst", 400, 10000, []), (S, "mixed", 80, 2000, [])]},
     "C14": {"runs": [("pure", "tables", 1, 1, []), (S, "reads", 320, 8000, [])],
